@@ -31,6 +31,7 @@ func init() {
 			{Name: "processor-holders", Run: c07Proc, Workers: 2, QuickS: 30, ThoroughS: 60},
 			{Name: "failing-target", Run: c07Failing, Workers: 2, QuickS: 30, ThoroughS: 60},
 			{Name: "registered-under-another-name", Run: c07Renamed, Workers: 2, QuickS: 30, ThoroughS: 60},
+			{Name: "shadowed-field-names", Run: c07Shadow, Workers: 1, QuickS: 30, ThoroughS: 60},
 		},
 	})
 }
@@ -714,6 +715,90 @@ func c07Renamed(c *core.Ctx) {
 			c.Report(key, "optional-touched", fmt.Sprintf("%s: nothing is registered under \"primary\", but the optional point `wire:\"primary\"` holds %s", desc, scen.IdOf(own)), cs)
 		default:
 			c.Outcome("renamed/exactly-the-registered-one")
+		}
+		c.Sample(map[string]any{"case": cs})
+	})
+}
+
+// ---- by-name points inside a mixin whose field has the name of a field of the embedding struct
+
+type C07ShadowBase struct {
+	Repo scen.I1 `wire:"x"`
+}
+type C07ShadowBaseOpt struct {
+	Repo scen.I1 `wire:"x,required=false"`
+}
+type c07ShadowHolder struct {
+	C07ShadowBase
+	Repo scen.I1 `wire:"y"`
+}
+type c07ShadowHolderOpt struct {
+	C07ShadowBaseOpt
+	Repo scen.I1 `wire:"y"`
+}
+
+type c07ShadowCase struct {
+	XPresent bool `json:"x_registered"`
+	Optional bool `json:"inner_point_optional"`
+}
+
+func c07Shadow(c *core.Ctx) {
+	gen := func(yield func(c07ShadowCase) bool) {
+		for _, xp := range []bool{true, false} {
+			for _, opt := range []bool{false, true} {
+				if !yield(c07ShadowCase{xp, opt}) {
+					return
+				}
+			}
+		}
+	}
+	Cases(c, gen, func(c *core.Ctx, cs c07ShadowCase) {
+		y := scen.BuildInst(scen.Inst{Typ: "TA", Name: "y"}, 1)
+		comps := []any{y}
+		var x any
+		if cs.XPresent {
+			x = scen.BuildInst(scen.Inst{Typ: "TA", Name: "x"}, 0)
+			comps = append(comps, x)
+		}
+		var inner, outer func() scen.I1
+		if cs.Optional {
+			h := &c07ShadowHolderOpt{}
+			comps, inner, outer = append(comps, h), func() scen.I1 { return h.C07ShadowBaseOpt.Repo }, func() scen.I1 { return h.Repo }
+		} else {
+			h := &c07ShadowHolder{}
+			comps, inner, outer = append(comps, h), func() scen.I1 { return h.C07ShadowBase.Repo }, func() scen.I1 { return h.Repo }
+		}
+		o := scen.Start(scen.StartSpec{Ch: envx.Fixed("", nil), Comps: comps})
+		c.S.Evaluations++
+		c.S.Programs++
+		c.S.States++
+		c.S.Nontrivial++
+		c.S.Transitions += int64(o.Trace.Calls)
+		key := "C07/shadowed/" + core.Hash(cs)
+		desc := fmt.Sprintf("a mixin's point `wire:\"x\"` (optional: %v) in a field called like a field of the embedding struct (`wire:\"y\"`); x registered: %v", cs.Optional, cs.XPresent)
+		switch {
+		case o.Panic != "" || o.Abort != "":
+			c.Outcome("shadowed/panic")
+			c.Report(key, "panic", desc+": "+o.Panic+o.Abort, cs)
+		case !cs.XPresent && !cs.Optional && o.Err == nil:
+			c.Outcome("shadowed/missing-error")
+			c.Report(key, "missing-error", desc+": the required point names nothing but start-up succeeded", cs)
+		case !cs.XPresent && !cs.Optional:
+			c.Outcome("shadowed/error-as-required")
+		case o.Err != nil:
+			c.Outcome("shadowed/spurious-error")
+			c.Report(key, "spurious-error", desc+": start-up failed: "+scen.FirstLine(o.Err), cs)
+		case outer() != y.(scen.I1):
+			c.Outcome("shadowed/wrong-component")
+			c.Report(key, "wrong-component", desc+": the embedding struct's own point does not hold y", cs)
+		case cs.XPresent && inner() != x.(scen.I1):
+			c.Outcome("shadowed/wrong-component")
+			c.Report(key, "wrong-component", fmt.Sprintf("%s: the mixin's point holds %s, want exactly the component registered under x", desc, scen.IdOf(inner())), cs)
+		case !cs.XPresent && inner() != nil:
+			c.Outcome("shadowed/optional-touched")
+			c.Report(key, "optional-touched", desc+": the optional point names nothing but was set", cs)
+		default:
+			c.Outcome("shadowed/as-named")
 		}
 		c.Sample(map[string]any{"case": cs})
 	})
